@@ -34,16 +34,28 @@ Merge(a, b) == [x \in (DOMAIN a) \cup (DOMAIN b) |-> IF x \in DOMAIN a THEN a[x]
 Cnt(B, m) == IF m \in DOMAIN B THEN B[m] ELSE 0
 SumOver(S, f(_)) == FoldSet(LAMBDA x, acc : acc + f(x), 0, S)
 BagUnion(A, B) == [m \in (DOMAIN A) \cup (DOMAIN B) |-> Cnt(A, m) + Cnt(B, m)]
-BagJoin(A, B) ==
+BagJoinGen(A, B) ==
   LET P == {p \in (DOMAIN A) \X (DOMAIN B) : Compatible(p[1], p[2])}
       M == {Merge(p[1], p[2]) : p \in P}
   IN  [m \in M |-> SumOver({p \in P : Merge(p[1], p[2]) = m}, LAMBDA p : A[p[1]] * B[p[2]])]
+RestrictTo(m, V) == [x \in (DOMAIN m) \cap V |-> m[x]]
+\* When all mappings of A bind the same variables DA and all of B the same DB (joins of triple patterns), a merged mapping m
+\* comes from exactly one pair (m restricted to DA, m restricted to DB): the general definition, computed in |M| steps
+\* instead of |M| * |P| (law BagJoinShortcut of MCLaws.tla checks the two against each other).
+UniformDom(A) == Cardinality({DOMAIN m : m \in DOMAIN A}) = 1
+BagJoin(A, B) ==
+  IF UniformDom(A) /\ UniformDom(B)
+  THEN LET DA == DOMAIN (CHOOSE m \in DOMAIN A : TRUE)
+           DB == DOMAIN (CHOOSE m \in DOMAIN B : TRUE)
+           P  == {p \in (DOMAIN A) \X (DOMAIN B) : Compatible(p[1], p[2])}
+           M  == {Merge(p[1], p[2]) : p \in P}
+       IN  [m \in M |-> A[RestrictTo(m, DA)] * B[RestrictTo(m, DB)]]
+  ELSE BagJoinGen(A, B)
 BagFilter(A, Ok(_)) == [m \in {x \in DOMAIN A : Ok(x)} |-> A[m]]
 BagMap(A, F(_)) ==
   LET M == {F(m) : m \in DOMAIN A}
   IN  [n \in M |-> SumOver({m \in DOMAIN A : F(m) = n}, LAMBDA m : A[m])]
 BagSize(A) == SumOver(DOMAIN A, LAMBDA m : A[m])
-RestrictTo(m, V) == [x \in (DOMAIN m) \cap V |-> m[x]]
 
 ---------------------------------------------------------------------------
 \* dataset views
@@ -351,7 +363,9 @@ CanonVal(X, v) == IF v \in DOMAIN X.num /\ KindOf(X, v) = "num"
                     ELSE v
 RowMapOfX(X, cols, r) == [x \in {cols[i] : i \in {j \in 1..Len(cols) : r[j] # ""}} |-> CanonVal(X, r[CHOOSE i \in 1..Len(cols) : cols[i] = x])]
 RowMapOf(cols, r) == [x \in {cols[i] : i \in {j \in 1..Len(cols) : r[j] # ""}} |-> r[CHOOSE i \in 1..Len(cols) : cols[i] = x]]
-SeqBag(sq) == LET S == {sq[i] : i \in 1..Len(sq)} IN [m \in S |-> Cardinality({i \in 1..Len(sq) : sq[i] = m})]
+SeqBag(sq) == LET S == {sq[i] : i \in 1..Len(sq)} IN
+              IF Cardinality(S) = Len(sq) THEN [m \in S |-> 1]          \* no duplicates: the common case, linear
+              ELSE [m \in S |-> Cardinality({i \in 1..Len(sq) : sq[i] = m})]
 SubBag(A, B) == \A m \in DOMAIN A : Cnt(A, m) <= Cnt(B, m)
 
 \* Without aggregates: expected full bag over the projected columns.
